@@ -48,6 +48,53 @@ theorem freelist_alloc_fresh (c : Cfg) (hc : GoodCfg c) (ops : List Op) (k a : N
     rw [hav, List.nodup_cons] at this
     exact this.1
 
+/-- Reserve (dhcp.Pool.Reserve, "give this key this specific address"): it succeeds only for an address
+    the key already holds or one that stood on the free list — so never for an address another key holds —
+    and after a success the key holds exactly that address; a refusal changes nothing. -/
+theorem freelist_reserve_sound (c : Cfg) (hc : GoodCfg c) (ops : List Op) (k a : Nat) :
+    let s := run (init c) ops
+    ((reserve s k a).2 = .bool true →
+        (reserve s k a).1.held.lookup k = some a ∧ (∀ k', k' ≠ k → s.held.lookup k' ≠ some a) ∧ a ∈ c.univ) ∧
+    ((reserve s k a).2 = .bool false → (reserve s k a).1 = s) := by
+  have hI := reachable_inv c hc ops
+  have hcfg : (run (init c) ops).cfg = c := run_cfg _ _
+  generalize run (init c) ops = s at *
+  have huniv : ∀ x, x ∈ s.avail → x ∈ c.univ := by
+    intro x hx
+    rw [← hcfg]
+    apply hI.perm.subset
+    simp only [List.mem_append]
+    exact Or.inl (Or.inr hx)
+  show ((reserve s k a).2 = .bool true →
+        (reserve s k a).1.held.lookup k = some a ∧ (∀ k', k' ≠ k → s.held.lookup k' ≠ some a) ∧ a ∈ c.univ) ∧
+    ((reserve s k a).2 = .bool false → (reserve s k a).1 = s)
+  cases hcur : s.held.lookup k with
+  | some cur =>
+    by_cases e : cur = a
+    · subst e
+      have hr : reserve s k cur = (s, .bool true) := by simp [reserve, hcur]
+      rw [hr]
+      refine ⟨fun _ => ⟨hcur, fun k' hk' h => hk' (hI.unique h hcur), ?_⟩, fun h => by simp at h⟩
+      have := hI.held_in_univ hcur
+      rwa [hcfg] at this
+    · by_cases ha : a ∈ s.avail
+      · have hr : reserve s k a = ({ s with avail := s.avail.erase a ++ [cur], held := AMap.insert s.held k a, rev := if s.cfg.hasRev then AMap.insert (AMap.erase s.rev cur) a k else s.rev }, .bool true) := by
+          simp [reserve, hcur, e, ha]
+        rw [hr]
+        exact ⟨fun _ => ⟨by simp, fun k' _ => hI.avail_not_held ha k', huniv a ha⟩, fun h => by simp at h⟩
+      · have hr : reserve s k a = (s, .bool false) := by simp [reserve, hcur, e, ha]
+        rw [hr]
+        exact ⟨fun h => by simp at h, fun _ => rfl⟩
+  | none =>
+    by_cases ha : a ∈ s.avail
+    · have hr : reserve s k a = ({ s with avail := s.avail.erase a, held := AMap.insert s.held k a, rev := if s.cfg.hasRev then AMap.insert s.rev a k else s.rev }, .bool true) := by
+        simp [reserve, hcur, ha]
+      rw [hr]
+      exact ⟨fun _ => ⟨by simp, fun k' _ => hI.avail_not_held ha k', huniv a ha⟩, fun h => by simp at h⟩
+    · have hr : reserve s k a = (s, .bool false) := by simp [reserve, hcur, ha]
+      rw [hr]
+      exact ⟨fun h => by simp at h, fun _ => rfl⟩
+
 /-- In range: every held value was generated by the pool's constructor. -/
 theorem freelist_held_generated (c : Cfg) (hc : GoodCfg c) (ops : List Op) (k a : Nat)
     (h : (run (init c) ops).held.lookup k = some a) : a ∈ c.univ := by
@@ -198,6 +245,8 @@ example : GoodPD { base := 0x20010db8000000000000000000000000, ones := 48, dl :=
   ⟨by decide, by decide, by decide, by decide⟩
 example : (run (init (dhcpCfg { net := 0x0a000000, ones := 29, gw := 0x0a000001 }))
     [.alloc 1, .alloc 2, .releaseVal 0x0a000002, .alloc 3]).held.lookup 3 = some 0x0a000004 := by decide
+example : (run (init (dhcpCfg { net := 0x0a000000, ones := 29, gw := 0x0a000001 }))
+    [.alloc 1, .alloc 2, .reserve 1 0x0a000003, .reserve 1 0x0a000005, .alloc 3]).held.lookup 3 = some 0x0a000004 := by decide
 example : (run (init (v6PrefixCfg { base := 0x20010db8000000000000000000000000, ones := 62, dl := 64 }))
     [.alloc 1, .alloc 2]).held.lookup 2 = some 0x20010db8000000010000000000000000 := by decide
 
